@@ -105,7 +105,7 @@ var gSchemes = []string{"http", "https", "ws", "wss", "ftp", "file", "foo", "dat
 var gBadSchemes = []string{"", "1a", "a b", "http:", "htt\tp", "fi le", "file:x", "h:ttp", ":", "é", "a_b", "+a", "a\x00", "http\xff", "ws:80",
 	// code points whose simple case mappings land on ASCII letters (U+0130 -> i, U+212A -> k, U+017F -> S, U+0131 -> I)
 	"F\u0130LE", "s\u212a", "w\u017f", "f\u0131le", "\u212a", "HTTP\u017f", "ws\u212a"}
-var gHostsASCII = []string{"example.com", "EXAMPLE.com", "1.2.3.4", "0x7f.1", "[::1]", "[1:2:3:4:5:6:7:8]", "[::1.2.3.4]", "localhost", "LocalHost", "a.b.c", "h", "", "ex%41mple.org", "1.2.3", "999", "0.0.0.0", "x_y", "h.", "h..", "0", "00", "0x", "0X1", "08", "09", "4294967295", "4294967296", "1.2.3.256", "256.1", "1..2", "1.2.", "a.1.", "a..", ".", "..", "!$&'()*+,;=", "a~b", "A-Z.", "[::]", "[::ffff:1.2.3.4]", "[0:0:0:1:0:0:0:0]", "[1:0:0:2:0:0:0:3]", "[2001:DB8::1]", "[0:0:0:0:0:0:0:0]", "[1::]", "[::1:0:0:0:0]", "192.168.0.1", "0300.0250.0.1", "127.1", "1.2.3.4.", "www.example.com", "a-b.c", "h1", "127.0.0.1", "0x7f000001", "10.0.0.1", "255.255.255.255", "%6c%6F%63alhost", "%31.2.3.4", "a%2eb"}
+var gHostsASCII = []string{"example.com", "EXAMPLE.com", "1.2.3.4", "0x7f.1", "[::1]", "[1:2:3:4:5:6:7:8]", "[::1.2.3.4]", "localhost", "LocalHost", "a.b.c", "h", "", "ex%41mple.org", "1.2.3", "999", "0.0.0.0", "x_y", "h.", "h..", "0", "00", "0x", "0X1", "08", "09", "4294967295", "4294967296", "1.2.3.256", "256.1", "1..2", "1.2.", "a.1.", "a..", ".", "..", "!$&'()*+,;=", "a~b", "A-Z.", "[::]", "[::ffff:1.2.3.4]", "[0:0:0:1:0:0:0:0]", "[1:0:0:2:0:0:0:3]", "[2001:DB8::1]", "[0:0:0:0:0:0:0:0]", "[1::]", "[::1:0:0:0:0]", "[ffff:ffff:ffff:ffff:ffff:ffff:ffff:ffff]", "[2a02:a03f:6a3c:12b0:f1c3:9a2b:7c4d:e5f6]", "[ffff:ffff:ffff:ffff:ffff:ffff:255.255.255.255]", "[1000:2000:3000:4000:5000:6000:7000:8000]", "[FFFF:0:FFFF:0:FFFF:0:FFFF:0]", "192.168.0.1", "0300.0250.0.1", "127.1", "1.2.3.4.", "www.example.com", "a-b.c", "h1", "127.0.0.1", "0x7f000001", "10.0.0.1", "255.255.255.255", "%6c%6F%63alhost", "%31.2.3.4", "a%2eb"}
 var gHostsBad = []string{"a b", "a:b", "%00", "[", "a]", "[::g]", "-1", "1.-2", "0x+f", "[[::1]]", "[::1]]", "[::1", "1.2.3.4.5", "0x100000000", "h/p", "h?q", "h#f", "h\\x", "u@h", "%", "%zz", "a%2Fb", "a%25b", "h\t", "\nh", " h", "h ", "a<b", "a^b", "a|b", "[1::2::3]", "[1:2:3:4:5:6:7]", "0.0x.0", "1.0x1g", "\x00", "\x7f", "h\x80", "[::1.2.3]", "[::1.2.3.4.5]", "[::01.2.3.4]", "[1:2:3:4:5:6:7:8:9]", "[:1]", "[1:]", "[12345::]", "[::1.2.3.256]", "[]", "a..b", "a`b", "a{b}", "a\"b", "%5B::1%5D", "1.2.3.4x", "x.0x", "x.1e3", "+1", "1.+2", "9672950000000000000a", "99999999999999999999x", "0x10000000000000000g", "07777777777777777777778", "1.99999999999999999999z", "18446744073709551616", "0x7fffffffffffffff", "9223372036854775808"}
 var gHostsIDNA = []string{"é.com", "xn--a", "XN--nxasmq6b.com", "www.xn--x.com", "xn--nxasmq6b", "a≠b", "Ｅｘａｍｐｌｅ.com", "faß.de", "a\u00adb.com", "\u200d.x", "xn--", "日本語.jp", "a≮b", "%C3%A9.com", "a\U0001F600b"}
 var gPorts = []string{"", "0", "80", "443", "21", "8080", "65535", "65536", "1", "81", "444", "22", "00080", "000", "65534", "8"}
